@@ -1,5 +1,6 @@
 """C20 - bundled readers render every message completely and survive foreign input."""
 
+import ast
 import io
 import json
 import re
@@ -125,6 +126,8 @@ FIELD_VALUES = [
     ("empty", ""),
     ("long", "word " * 30),
     ("bool", False),
+    ("blanks-before-newlines", "pw: \nin\t\nend  "),
+    ("only-blanks", " \n\t\n "),
 ]
 # values that compare (and hash) equal across types but have different JSON encodings
 NUMERIC_VALUES = [("1", 1), ("1.0", 1.0), ("true", True), ("0", 0), ("0.0", 0.0), ("-0.0", -0.0), ("false", False), ("text-1", "1")]
@@ -197,6 +200,24 @@ def body_E1(ctx):
                     if sub.strip():
                         frag = sub.strip().split(" ")[0]
                         ctx.check(frag.replace("\"", "") in p.replace("\\", "").replace("\"", "") or repr(frag)[1:-1] in p, "text %r of field %s is missing from the pretty output", frag, k)
+    # short text values can be read back exactly from the rendering (every blank and tab included)
+    for k in order:
+        v = m[k]
+        if isinstance(v, str) and len(repr(v)) <= 38 and "\\" not in v:
+            first = "  %s: " % k
+            cont = "%s| " % (" " * (2 + len(k)))
+            start = next(i for i, ln in enumerate(lines) if ln.startswith(first) and not ln.startswith("   "))
+            got_lines = [lines[start][len(first):]]
+            j = start + 1
+            while j < len(lines) and lines[j].startswith(cont):
+                got_lines.append(lines[j][len(cont):])
+                j += 1
+            shown = "\n".join(got_lines).replace("\n ", "\\n").replace("\t", "\\t")
+            try:
+                back = ast.literal_eval(shown)
+            except Exception:
+                back = None
+            ctx.check(back == v, "field %s has the value %r, what pretty_format shows reads back as %r (rendering %r)", k, v, back, got_lines)
     # local timezone flag only changes the timestamp line
     pl = pretty_format(dict(m), True).split("\n")
     ctx.check(pl[0] == lines[0] and pl[2:] == lines[2:] and not pl[1].endswith("Z"), "local-timezone rendering differs beyond the timestamp")
@@ -339,7 +360,7 @@ OBLIGATIONS = [
         shards=lambda tier: [dict(b, prefix=p) for b in ([{"max_fields": 1}, {"max_fields": 2, "levels": 1, "stamps": 1, "numeric": 1}] if tier == "quick" else [{"max_fields": 1}, {"max_fields": 2, "levels": 2, "stamps": 2}, {"max_fields": 2, "levels": 2, "stamps": 2, "numeric": 1}]) for p in enumerate_prefixes(body_E1, "X", {}, b, 2 if tier == "quick" else 3)],
         twin=[{"max_fields": 1, "twin_label": "action-with-field"}],
         timeout={"quick": 100, "thorough": 900},
-        bounds={"quick": "3 task levels x 5 timestamps x {message, action x 3 statuses, no type field, empty action_type, empty message_type} x <= 1 extra field (7 names x 8 corner values); <= 2 fields over values that are equal across types but encode differently (1, 1.0, true, 0, 0.0, -0.0, false, \"1\")", "thorough": "additionally <= 2 extra fields with 2 levels x 2 timestamps"},
+        bounds={"quick": "3 task levels x 5 timestamps x {message, action x 3 statuses, no type field, empty action_type, empty message_type} x <= 1 extra field (7 names x 10 corner values; short text values are read back exactly from the rendering); <= 2 fields over values that are equal across types but encode differently (1, 1.0, true, 0, 0.0, -0.0, false, \"1\")", "thorough": "additionally <= 2 extra fields with 2 levels x 2 timestamps"},
     ),
     Ob(
         "E2",
